@@ -59,6 +59,7 @@ type Prog struct {
 	Overlay  map[string][]byte
 	GoBin    string
 	constNames map[string]string
+	constPkgs  map[*types.Package]bool
 }
 
 // goEnv picks a go toolchain consistent with the one this binary was built
